@@ -664,6 +664,36 @@ Proof.
   clear Hok. induction Hs; constructor; [apply step_sound_to_bytes; assumption|assumption].
 Qed.
 
+(** what step [st] reads on the signed build *)
+Definition ideal_of {A} (bs c : N) (sa : list (list A * list A)) (st : N * pattern) : list A :=
+  match nth_error sa (N.to_nat (fst st)) with
+  | Some (s, _) => ideal_bytes bs c s (snd st)
+  | None => []
+  end.
+
+(** a run in which no consumer reported an error has read, consumer by consumer, exactly the
+    bytes it would have read on the signed build: whatever the patcher computes from its reads
+    is what it computes on the undamaged old build *)
+Theorem safekeeper_completed_run_is_exact_lemma {A H : Type} (bs c m : N) (hash : list A -> H) (heqb : H -> H -> bool)
+    (sa : list (list A * list A)) (steps : list (N * pattern)) :
+  0 < c -> 0 < m -> bs = c * m ->
+  (forall a b, heqb (hash a) (hash b) = true -> a = b) ->
+  steps_ok bs sa steps ->
+  let results := run_steps bs c hash heqb Fixed (files_of bs hash sa) pool_empty steps in
+  Forall (fun res => snd res = Done) results ->
+  map (fun res => concat (fst res)) results = map (ideal_of bs c sa) steps.
+Proof.
+  intros Hc Hm Hbs Hinj Hok results.
+  pose proof (safekeeper_sound_bytes_lemma bs c m hash heqb sa steps Hc Hm Hbs Hinj Hok) as Hs.
+  fold results in Hs. clearbody results. clear Hok.
+  induction Hs as [|st res sts rs Hst Hs IH]; intros Hd; [reflexivity|].
+  inversion Hd as [|? ? Hd1 Hd2]; subst. cbn [map]. rewrite (IH Hd2). f_equal.
+  unfold step_sound_bytes in Hst. unfold ideal_of.
+  destruct (nth_error sa (N.to_nat (fst st))) as [[s a]|].
+  - apply Hst. assumption.
+  - subst res. discriminate.
+Qed.
+
 (** ---- the code before the fixes violates both statements (bs = 4, c = 2, hash = identity) ---- *)
 Section Refuted.
   Let idh := fun b : list N => b.
